@@ -46,7 +46,9 @@ Definition run_assign (a : env_assign) (e : envv) : envv :=
 
 (* ---- cross reference ------------------------------------------------------------------ *)
 Inductive site := SitePedantic | SiteForAll.
-Inductive phase := PhEnvLogic | PhModule | PhDecoration (s : site) | PhCall (s : site) | PhElsewhere.
+Inductive phase := PhEnvLogic | PhModule | PhDecoration (s : site) | PhCall (s : site) | PhElsewhere
+                 | PhCreate (s : site).   (* body of the factory pedantic(...) / for_all_methods(...): runs when the decorator
+                                             OBJECT is created, possibly long before it is applied *)
 Inductive ref_kind := RImport | RIsEnabledCall | RSwitchRead | RSwitchWrite | RVarName | RVarLiteral
                     | RToggle | RForeignRead | RUnknown
                     | RDecoUse.      (* one of the seven decorators is used (applying it reads the switch) *)
@@ -105,9 +107,13 @@ Record switch_model := {
   sm_paths : list (site * bool) }.                   (* behind the guard the decorator installs its wrapper(s) *)
 
 Inductive dobj := Identity (x : nat) | Wrapped (d : dkind) (x : nat).
-Record state := { env : envv; objs : list dobj }.
+(* decos: decorator objects that were created (for_all_methods(inner), pedantic(), pedantic_require_docstring(), or a
+   reference to one of the class decorators) and not yet necessarily applied, with the value of the variable at creation *)
+Record state := { env : envv; objs : list dobj; decos : list (dkind * envv) }.
 
-Inductive op := OSetenv (s : string) | OUnsetenv | OEnable | ODisable | ODecorate (d : dkind) (x : nat) | OCall (i : nat).
+Inductive op := OSetenv (s : string) | OUnsetenv | OEnable | ODisable | ODecorate (d : dkind) (x : nat) | OCall (i : nat)
+              | OCreate (d : dkind)            (* obtain a decorator object, keep it *)
+              | OApply (k : nat) (x : nat).    (* apply the k-th kept decorator object to a fresh target x *)
 
 Inductive behaviour := Plain | Checked | CallRaises.
 Inductive obs := ONone | ODeco (identity : bool) | ODecoRaise | OCalled (b : behaviour).
@@ -138,6 +144,11 @@ Section Model.
     existsb (fun r => reads_switch (er_kind r) &&
                       match er_phase r with PhCall s => site_relevant d s | _ => false end) (sm_refs M).
 
+  (* the factory body refers to the switch: the value seen at creation would be frozen into the decorator object *)
+  Definition create_reads (d : dkind) : bool :=
+    existsb (fun r => reads_switch (er_kind r) &&
+                      match er_phase r with PhCreate s => site_relevant d s | _ => false end) (sm_refs M).
+
   Definition is_enabled (e : envv) : outcome bool := run_is_enabled (sm_prog M) e.
 
   (* every guard site whose wrappers run when an object decorated by d is called does install them *)
@@ -156,23 +167,35 @@ Section Model.
       else Checked
     end.
 
+  Definition with_env (s : state) (e : envv) : state := {| env := e; objs := objs s; decos := decos s |}.
+  Definition add_obj (s : state) (o : dobj) : state := {| env := env s; objs := objs s ++ [o]; decos := decos s |}.
+
+  (* apply decorator d to target x; e is the value of the variable the guard sees *)
+  Definition decorate (s : state) (d : dkind) (x : nat) (e : envv) : state * obs :=
+    if honours d then
+      match is_enabled e with
+      | Ok true => (add_obj s (Wrapped d x), ODeco false)
+      | Ok false => (add_obj s (Identity x), ODeco true)
+      | Raise _ => (s, ODecoRaise)
+      end
+    else (add_obj s (Wrapped d x), ODeco false).
+
   Definition step (s : state) (o : op) : state * obs :=
     match o with
-    | OSetenv v => ({| env := Val v; objs := objs s |}, ONone)
-    | OUnsetenv => ({| env := Unset; objs := objs s |}, ONone)
-    | OEnable => ({| env := run_assign (sm_enable M) (env s); objs := objs s |}, ONone)
-    | ODisable => ({| env := run_assign (sm_disable M) (env s); objs := objs s |}, ONone)
-    | ODecorate d x =>
-      if honours d then
-        match is_enabled (env s) with
-        | Ok true => ({| env := env s; objs := objs s ++ [Wrapped d x] |}, ODeco false)
-        | Ok false => ({| env := env s; objs := objs s ++ [Identity x] |}, ODeco true)
-        | Raise _ => (s, ODecoRaise)
-        end
-      else ({| env := env s; objs := objs s ++ [Wrapped d x] |}, ODeco false)
+    | OSetenv v => (with_env s (Val v), ONone)
+    | OUnsetenv => (with_env s Unset, ONone)
+    | OEnable => (with_env s (run_assign (sm_enable M) (env s)), ONone)
+    | ODisable => (with_env s (run_assign (sm_disable M) (env s)), ONone)
+    | ODecorate d x => decorate s d x (env s)
     | OCall i =>
       match nth_error (objs s) i with
       | Some o' => (s, OCalled (call_behaviour o' (env s)))
+      | None => (s, ONone)
+      end
+    | OCreate d => ({| env := env s; objs := objs s; decos := decos s ++ [(d, env s)] |}, ONone)
+    | OApply k x =>
+      match nth_error (decos s) k with
+      | Some (d, e0) => decorate s d x (if create_reads d then e0 else env s)
       | None => (s, ONone)
       end
     end.
